@@ -51,7 +51,7 @@ Lines (tab separated, after the sequence number):
   amm.k.batch <now> <lastPrice|none> <currentBatchId> <orders>
         real liquidity.EndBlocker (ExecuteRequests → ExecuteMatching, ApplyMatchResult, expiry); every stored order of the pair
         `id:open:remaining:received:status` joined by `;` (before the next BeginBlocker prunes finished orders)
-        monitors order_within_amount, order_limit_respected on the REAL stored orders
+        monitors order_within_amount, order_limit_respected on the REAL stored orders; batch_executed (the batch id advanced)
 results := `id:open:paid:received:matched` joined by `;`, every order of the sequence, ascending id.
 Prices are Dec raws.  After every op the model continues from the REAL resulting order states.
 
@@ -408,12 +408,15 @@ def handle (st : St) (seq : String) (f : List String) : St × List String :=
       match real with
       | none => (st, d ++ [s!"BAD\t{seq}\tk.batch orders {orders}"])
       | some real =>
+        -- the batch must have been EXECUTED: `pair.CurrentBatchId` advances by one in every EndBlocker; a batch that panicked inside
+        -- `ApplyMatchResult` (e.g. a negative RemainingOfferCoin) is swallowed by the end-blocker's wrapper and silently skipped
+        let m0 := if parseNat? bid == some (st.k.batchId + 1) then [] else [s!"MON\t{seq}\tbatch_executed"]
         let m1 := if real.all monOrderWithinAmount then [] else [s!"MON\t{seq}\torder_within_amount"]
         let m2 := if real.all monOrderLimit then [] else [s!"MON\t{seq}\torder_limit_respected"]
         let lpR := if lp = "none" then none else parseInt? lp
         -- continue from the REAL state
-        let k2 : KState := prune { k1 with orders := real.map (fun so => { so with fills := (k1.orders.find? (fun x => x.id == so.id)).map (·.fills) |>.getD so.fills }), lastPrice := lpR }
-        ({ st with k := k2 }, d ++ m1 ++ m2)
+        let k2 : KState := prune { k1 with orders := real.map (fun so => { so with fills := (k1.orders.find? (fun x => x.id == so.id)).map (·.fills) |>.getD so.fills }), lastPrice := lpR, batchId := (parseNat? bid).getD k1.batchId }
+        ({ st with k := k2 }, d ++ m0 ++ m1 ++ m2)
   | ["amm.pool", rx, ry, lo, hi, prec, buys, sells] =>
     match parseInt? rx, parseInt? ry, parseInt? lo, parseInt? hi, parseNat? prec with
     | some rx, some ry, some lo, some hi, some prec =>
